@@ -43,3 +43,13 @@ package resource
 //@   modifies dbPfx[refOf(g.db)], count(dbgets), count(stfault)
 //@   callsite (*DbResource).fn assert[C10,C18] @typed dbPfx(refOf(g.db)) == db.DATATYPE_BIN && arg1 == ctx && arg2 == sym
 //@   ensures[C10] @disabled !bit(g.typs, 0) ==> result1 != nil
+
+// Static loads: a symbol without a registered function is looked up in the store, as a
+// STATICLOAD record, with the caller's context (its language: C18), every time it is asked
+// for: the resource keeps no lookup state of its own between calls (frame).
+//@ func (*DbResource).DbFuncFor
+//@   serves C10, C18
+//@   requires resOk(g) && g.MenuResource != nil
+//@   modifies dbPfx[refOf(g.db)], count(dbgets), count(stfault)
+//@   callsite (*DbResource).fn assert[C10,C18] @typed dbPfx(refOf(g.db)) == db.DATATYPE_STATICLOAD && arg1 == ctx
+//@   ensures[C10] @disabled old(count(dbgets)) != count(dbgets) ==> bit(g.typs, 3)
